@@ -11,7 +11,9 @@ VARIABLES x, l, s, sp      \* execution, position, model state, model state befo
 tvars == <<x, l, s, sp>>
 Evs == Log[x].ev
 TInit == x \in 1..Len(Log) /\ l = 1 /\ s = Default /\ sp = Default
-Do(ev, st) == IF ev.op = "set" THEN SetState(st, ev.addr, ev.ty, IF ev.ty \in {"T", "F"} THEN 0 ELSE ev.v) ELSE st
+Do(ev, st) == IF ev.op = "set" THEN SetState(st, ev.addr, ev.ty, IF ev.ty \in {"T", "F"} THEN 0 ELSE ev.v)
+              ELSE IF ev.op = "floatseq" THEN SetState(st, ev.addr, "f", 4)      \* a float sequence ends with the value 1.0 (four quarters)
+              ELSE st
 Step == /\ l >= 1 /\ l <= Len(Evs) /\ s' = Do(Evs[l], s) /\ sp' = s /\ l' = l + 1 /\ UNCHANGED x
 Finish == /\ l = Len(Evs) + 1 /\ PrintT(<<"DONE", x>>) /\ l' = 0 /\ UNCHANGED <<x, s, sp>>
 TNext == Step \/ Finish
@@ -51,6 +53,18 @@ GetFails(ev, before) ==
                                               ELSE Len(rp[1].args) = 1 /\ rp[1].args[1] = ValOf(p, GetV(before, p)))
                                  ELSE rp = <<>>
        [] k = "c14:get_other_events" -> Len(ev.events) = Len(rp) }
+\* ------------------------------------------------------------------ C14 at the resolution of float bit patterns (FloatPort.tla)
+FP == INSTANCE FloatPort WITH MaxLen <- 0, seq <- <<>>
+BitsOfQ(q) == LET lm == FloatLimbs(q) IN lm[1] * 65536 + lm[2]            \* positive quarters only (below 2^31)
+FloatSeqFails(ev, before, after) ==
+  LET p == Param(ev.addr)
+      exp == FP!Run(BitsOfQ(GetV(before, p)), BitsOfQ(p.hi), ev.ins) IN
+  {k \in {"c14:float_stored_pattern", "c14:float_undo_event_iff_changed", "c14:float_broadcast", "c14:float_matches", "c14:stored_value_or_other_parameter_touched"} :
+   ~ CASE k = "c14:float_stored_pattern" -> \A i \in 1..Len(exp) : ev.steps[i].stored = exp[i].stored
+       [] k = "c14:float_undo_event_iff_changed" -> \A i \in 1..Len(exp) : ev.steps[i].undo = (IF exp[i].changed THEN << [old |-> exp[i].old, new |-> exp[i].stored] >> ELSE <<>>)
+       [] k = "c14:float_broadcast" -> \A i \in 1..Len(exp) : IF exp[i].changed THEN ev.steps[i].bc = << exp[i].stored >> ELSE Len(ev.steps[i].bc) <= 1
+       [] k = "c14:float_matches" -> \A i \in 1..Len(exp) : ev.steps[i].matches = 1
+       [] k = "c14:stored_value_or_other_parameter_touched" -> ev.state = after }
 \* ------------------------------------------------------------------ C12 / C13
 RECURSIVE ObsVal(_)
 ObsVal(v) == IF v.t = "a" THEN [i \in 1..Len(v.el) |-> ObsVal(v.el[i])] ELSE [t |-> v.t, n |-> v.n, b |-> v.b]
@@ -118,6 +132,7 @@ Mismatch(ev, before, after) ==
     [] ev.op = "saveload" -> SaveFails(ev, after) \cup PermFails(ev, after) \cup DropFails(ev, after)
     [] ev.op = "loadraw" -> RawFails(ev)
     [] ev.op = "serialize" -> SerFails(ev, after)
+    [] ev.op = "floatseq" -> FloatSeqFails(ev, before, after)
     [] OTHER -> {}
 Judge == (l <= 1) \/ LET m == Mismatch(Evs[l - 1], sp, s) \cup (IF Evs[l - 1].asan # 0 THEN {"memory_error"} ELSE {}) IN m = {} \/ PrintT(<<"REJECT", x, m, l - 1>>)
 =============================================================================
